@@ -252,3 +252,63 @@ Proof.
     unfold bytes_ok in Hok. rewrite Forall_forall in Hok. apply Hok. exact E.
   - apply nth_error_None in E. lia.
 Qed.
+
+(* ================================================================== B1. aligned shifts *)
+
+Lemma shl_aligned_list bytes q : bytes_ok bytes -> (q <= length bytes)%nat ->
+  shl_aligned bytes (Z.of_nat (length bytes)) (Z.of_nat q) = Val (skipn q bytes ++ repeat 0 q).
+Proof.
+  intros Hok Hq. unfold shl_aligned.
+  set (L := skipn q bytes ++ repeat 0 q).
+  assert (HL : length L = length bytes).
+  { unfold L. rewrite app_length, skipn_length, repeat_length. lia. }
+  rewrite <- (map_id L). rewrite <- (map_zrange_nth L (fun b => b)). rewrite HL.
+  apply omap_val. intros x Hx. apply zrange_In in Hx.
+  destruct (Z.ltb_spec (x + Z.of_nat q) (Z.of_nat (length bytes))) as [Hlt|Hge].
+  - destruct (nth_byte bytes (x + Z.of_nat q) Hok ltac:(lia)) as [b [Eb _]]. rewrite Eb.
+    unfold L. rewrite nth_error_app1 by (rewrite skipn_length; lia).
+    rewrite nth_error_skipn_add.
+    replace (q + Z.to_nat x)%nat with (Z.to_nat (x + Z.of_nat q)) by lia. rewrite Eb. reflexivity.
+  - unfold L. rewrite nth_error_app2 by (rewrite skipn_length; lia).
+    rewrite nth_error_repeat_lt by (rewrite skipn_length; lia). reflexivity.
+Qed.
+
+Lemma shl_aligned_ok bytes q : bytes_ok bytes -> (q <= length bytes)%nat ->
+  exists res, shl_aligned bytes (Z.of_nat (length bytes)) (Z.of_nat q) = Val res
+    /\ length res = length bytes /\ bytes_ok res
+    /\ be_val res = (be_val bytes * 256 ^ Z.of_nat q) mod 256 ^ Z.of_nat (length bytes).
+Proof.
+  intros Hok Hq. exists (skipn q bytes ++ repeat 0 q).
+  assert (Hlen : length (skipn q bytes ++ repeat 0 q) = length bytes).
+  { rewrite app_length, skipn_length, repeat_length. lia. }
+  assert (Hres : bytes_ok (skipn q bytes ++ repeat 0 q)).
+  { apply Forall_app. split; [apply Forall_skipn_keep; exact Hok | apply Forall_repeat_intro; lia]. }
+  split; [apply shl_aligned_list; assumption|]. split; [exact Hlen|]. split; [exact Hres|].
+  pose proof (be_val_bound _ Hres) as Hb. rewrite Hlen in Hb.
+  rewrite be_val_app_repeat0 in Hb |- *.
+  rewrite (be_val_firstn_skipn q bytes).
+  symmetry. apply Z.mod_unique with (q := be_val (firstn q bytes)); [left; exact Hb|].
+  replace (length bytes) with ((length bytes - q) + q)%nat at 2 by lia.
+  rewrite pow256_add. ring.
+Qed.
+
+Lemma shr_aligned_ok bytes q : bytes_ok bytes -> (q <= length bytes)%nat ->
+  exists res, shr_aligned bytes (Z.of_nat (length bytes)) (Z.of_nat q) = Val res
+    /\ length res = length bytes /\ bytes_ok res
+    /\ be_val res = be_val bytes / 256 ^ Z.of_nat q.
+Proof.
+  intros Hok Hq. unfold shr_aligned.
+  destruct (Z.ltb_spec (Z.of_nat (length bytes)) (Z.of_nat q)) as [Hlt|_]; [lia|].
+  rewrite Nat2Z.id. replace (Z.to_nat (Z.of_nat (length bytes) - Z.of_nat q)) with (length bytes - q)%nat by lia.
+  eexists. split; [reflexivity|].
+  split; [rewrite app_length, repeat_length, firstn_length; lia|].
+  split.
+  { apply Forall_app. split; [apply Forall_repeat_intro; lia | apply Forall_firstn_keep; exact Hok]. }
+  rewrite be_val_repeat0_app.
+  rewrite (be_val_firstn_skipn (length bytes - q) bytes).
+  replace (length bytes - (length bytes - q))%nat with q by lia.
+  pose proof (be_val_bound _ (Forall_skipn_keep _ (length bytes - q)%nat _ Hok)) as Hb.
+  rewrite skipn_length in Hb. replace (length bytes - (length bytes - q))%nat with q in Hb by lia.
+  pose proof (pow256_pos q) as Hp.
+  rewrite Z.div_add_l by lia. rewrite (Z.div_small _ _ Hb). lia.
+Qed.
